@@ -116,6 +116,7 @@ type Enc struct {
 	localAllocs []*ssa.Alloc
 	needFP      bool
 	needBE      bool
+	defsOn      bool
 	axiomsUsed  []string
 	specUsed    map[string]bool
 	specDecls   []string
@@ -140,6 +141,7 @@ func newEnc(w *World, cs *Contracts, fn *ssa.Function) *Enc {
 		localCells: map[string][]string{}, names: map[string]ssa.Value{}, nameAt: map[*ssa.BasicBlock]map[string]ssa.Value{},
 		trustedUsed: map[string]bool{}, rootMemo: map[string]string{}, sliceRoot: map[string]string{},
 		frameOf: map[string]*frameInfo{}, baseOf: map[string]string{}, wm: map[string]string{}}
+	e.defsOn = true
 	if e.name == "" {
 		e.name = funcName(fn)
 	}
@@ -374,6 +376,7 @@ func (e *Enc) epochGet(ep *epoch, key, sort string) string {
 	ep.memo[key] = n
 	if key != "$A" && !strings.HasPrefix(key, "$s:") {
 		e.wm[n] = e.epochGet(ep, "$A", "Int")
+		e.closedness(n, key, sort)
 	}
 	prev := ep.prev
 	if prev == nil && ep.delegate != nil {
@@ -570,6 +573,7 @@ func (e *Enc) havocKey(h *Heap, key string) {
 	old := e.heapGet(h, key, srt)
 	n := e.fresh("H_"+sanitize(key), "(Array Ref "+srt+")")
 	e.wm[n] = e.allocCounter(h)
+	e.closedness(n, key, srt)
 	for _, c := range e.localCells[key] {
 		e.assert(app("=", app("select", n, c), app("select", old, c)))
 	}
@@ -1117,6 +1121,7 @@ func (e *Enc) havocKeyFramed(h *Heap, key string, apre string, except []string) 
 	n := e.fresh("H_"+sanitize(key), "(Array Ref "+srt+")")
 	e.frameOf[n] = &frameInfo{prev: old, apre: apre, except: except}
 	e.wm[n] = e.allocCounter(h)
+	e.closedness(n, key, srt)
 	h.m[key] = n
 }
 
@@ -1172,5 +1177,23 @@ func (e *Enc) loadedRefFacts(h *Heap, key, srt, addr string) {
 			rd = app("sarr", rd)
 		}
 		e.assert(app("<=", app("rootid", rd), w))
+	}
+}
+
+// closedness: in precise (quantified) mode, every reference stored in a freshly introduced heap constant was allocated
+// no later than the constant's watermark. Needed under quantifiers, where per-load facts cannot be emitted.
+func (e *Enc) closedness(n, key, sort string) {
+	if !e.precise || strings.HasPrefix(key, "$") || e.ct == nil || e.ct.Opts["closed-heaps"] == "" {
+		return
+	}
+	w, ok := e.wm[n]
+	if !ok {
+		return
+	}
+	switch sort {
+	case "Ref":
+		e.assert(fmt.Sprintf("(forall ((r Ref)) (! (<= (rootid (select %s r)) %s) :pattern ((select %s r))))", n, w, n))
+	case "Slice":
+		e.assert(fmt.Sprintf("(forall ((r Ref)) (! (<= (rootid (sarr (select %s r))) %s) :pattern ((select %s r))))", n, w, n))
 	}
 }
